@@ -36,13 +36,28 @@ UNIT = {
     "group": '<g opacity=".5"><rect x="-.5" y="-.5" width=".7" height=".7" fill="teal"/><circle cx=".15" cy=".15" r=".35" fill="maroon"/></g>',
     "grad": '<rect x="-.5" y="-.35" width="1" height=".7" fill="url(#lg)"/>',
 }
-GRAD_DEF = '<linearGradient id="lg" x1="0" y1="0" x2="1" y2="1"><stop offset="0" stop-color="red"/><stop offset="1" stop-color="blue"/></linearGradient>'
+GRAD_DEF = (
+    '<linearGradient id="lg" x1="0" y1="0" x2="1" y2="1"><stop offset="0" stop-color="red"/><stop offset="1" stop-color="blue"/></linearGradient>'
+    '<radialGradient id="rg" cx=".4" cy=".5" r=".6"><stop offset="0" stop-color="yellow"/><stop offset="1" stop-color="green"/></radialGradient>'
+    '<linearGradient id="ug" gradientUnits="userSpaceOnUse" x1="-10" y1="20" x2="70" y2="60"><stop offset="0" stop-color="red"/><stop offset=".5" stop-color="lime"/><stop offset="1" stop-color="blue"/></linearGradient>'
+)
 GRID = [-0.42, 0.0, 0.5, 1.0, 1.42]  # centre position as a fraction of the viewBox size
+
+
+# shapes written in absolute coordinates (no transform), so that the converted document keeps
+# the gradient in bounding-box units and SHARED between its users
+DIRECT = {
+    "bbrect": lambda cx, cy, sw, sh: f'<rect x="{cx - sw / 2:g}" y="{cy - sh * .35:g}" width="{sw:g}" height="{sh * .7:g}" fill="url(#lg)"/>',
+    "bbellipse": lambda cx, cy, sw, sh: f'<ellipse cx="{cx:g}" cy="{cy:g}" rx="{sw / 2:g}" ry="{sh * .4:g}" fill="url(#rg)"/>',
+    "usrect": lambda cx, cy, sw, sh: f'<rect x="{cx - sw / 2:g}" y="{cy - sh * .35:g}" width="{sw:g}" height="{sh * .7:g}" fill="url(#ug)"/>',
+}
 
 
 def place(shape, vb, gx, gy, scale=0.36):
     x, y, w, h = vb
     cx, cy = x + gx * w, y + gy * h
+    if shape in DIRECT:
+        return DIRECT[shape](cx, cy, scale * w, scale * h)
     return f'<g transform="translate({cx:g},{cy:g}) scale({scale * w:g},{scale * h:g})">{UNIT[shape]}</g>'
 
 
@@ -114,6 +129,8 @@ def evaluate(case):
         return evaluate_bbox(case)
     if fam == "cli":
         return evaluate_cli(case)
+    if fam == "rects":
+        return evaluate_rects(case)
     vb = tuple(case["vb"])
     items = [tuple(i) for i in case["items"]]
     src = source_doc(vb, items, case.get("group", False), case.get("covering", False))
@@ -237,6 +254,60 @@ def evaluate_bbox(case):
     return {"n": n, "outs": outs, "nts": nts, "viol": viols}
 
 
+DOC_SHAPES = [
+    '<rect x="10" y="12" width="20" height="14" fill="red"/>',
+    '<line x1="-5" y1="40" x2="60" y2="40" stroke="black"/>',  # horizontal: zero-height box
+    '<line x1="70" y1="-8" x2="70" y2="30" stroke="black"/>',  # vertical: zero-width box
+    '<path d="M5,55 H45" stroke="blue"/>',
+    '<path d="M-12,3 V58 M-12,20 V70" stroke="blue"/>',
+    '<circle cx="20" cy="20" r="6" fill="green"/>',
+    '<path d="M15,50 C25,80 35,80 45,50" fill="none" stroke="red"/>',
+    '<polyline points="80,5 80,5" stroke="red"/>',
+]
+
+
+def bbox_docs(tier):
+    n = len(DOC_SHAPES)
+    sizes = (1, 2) if tier == "quick" else (1, 2, 3)
+    for k in sizes:
+        for combo in itertools.permutations(range(n), k) if k < 3 else itertools.combinations(range(n), k):
+            yield f'<svg {NS} viewBox="0 0 100 100">' + "".join(DOC_SHAPES[i] for i in combo) + "</svg>"
+
+
+def evaluate_rects(case):
+    """Rect.union / Rect.intersection over a small exhaustive lattice incl. zero-width / zero-height boxes"""
+    from picosvg.geometric_types import Rect
+
+    vals = [(x, w) for x in (-2, 0, 3) for w in (0, 1.5, 4)]
+    rects = [(x, y, w, h) for x, w in vals for y, h in vals]
+    outs = collections.Counter()
+    viols = []
+    nts = set()
+    for a in rects:
+        A = Rect(*a)
+        for b in rects:
+            B = Rect(*b)
+            u = A.union(B)
+            exp = (min(a[0], b[0]), min(a[1], b[1]), max(a[0] + a[2], b[0] + b[2]), max(a[1] + a[3], b[1] + b[3]))
+            got = (u.x, u.y, u.x + u.w, u.y + u.h)
+            outs["union"] += 1
+            if a[2] == 0 or a[3] == 0 or b[2] == 0 or b[3] == 0:
+                nts.add(core.h64(repr((a, b))))
+            if any(abs(p - q) > 1e-12 for p, q in zip(got, exp)):
+                viols.append({"sig": {"kind": "rect-union", "degenerate_operand": bool(a[2] == 0 or a[3] == 0 or b[2] == 0 or b[3] == 0)}, "case": {"fam": "rects", "a": a, "b": b}, "detail": {"why": f"Rect{a}.union(Rect{b}) = {tuple(u)}; the smallest box containing both spans {exp}"}})
+            i = A.intersection(B)
+            ox = (max(a[0], b[0]), min(a[0] + a[2], b[0] + b[2]))
+            oy = (max(a[1], b[1]), min(a[1] + a[3], b[1] + b[3]))
+            outs["intersection"] += 1
+            if ox[0] < ox[1] and oy[0] < oy[1]:
+                if i is None or any(abs(p - q) > 1e-12 for p, q in zip((i.x, i.y, i.x + i.w, i.y + i.h), (ox[0], oy[0], ox[1], oy[1]))):
+                    viols.append({"sig": {"kind": "rect-intersection"}, "case": {"fam": "rects", "a": a, "b": b}, "detail": {"why": f"Rect{a}.intersection(Rect{b}) = {i}; the boxes overlap in {(ox, oy)}"}})
+            elif ox[0] > ox[1] or oy[0] > oy[1]:
+                if i is not None:
+                    viols.append({"sig": {"kind": "rect-intersection"}, "case": {"fam": "rects", "a": a, "b": b}, "detail": {"why": f"Rect{a}.intersection(Rect{b}) = {i} although the boxes are disjoint"}})
+    return {"n": 2 * len(rects) ** 2, "outs": outs, "nts": nts, "viol": viols[:40]}
+
+
 def bbox_shapes():
     from mc.props import c09, c13
 
@@ -275,6 +346,14 @@ def all_clip_cases(tier, seed):
     for vb in VIEWBOXES[:2] if tier == "quick" else VIEWBOXES:
         for p1, p2 in itertools.product(pos[::2], pos[1::3]):
             yield {"fam": "clip", "vb": list(vb), "items": [["tri", *p1], ["cubic", *p2]], "group": True, "tier": tier, "seed": seed}
+    # gradients in bounding-box units / shared between shapes (written without transforms so that they stay so)
+    for vb in VIEWBOXES[:2] if tier == "quick" else VIEWBOXES:
+        for s in DIRECT:
+            for gx, gy in pos:
+                yield {"fam": "clip", "vb": list(vb), "items": [[s, gx, gy]], "tier": tier, "seed": seed}
+        for s in DIRECT:
+            for p1, p2 in itertools.product(pos[::2] if tier == "quick" else pos, [(0.5, 0.5), (0.0, 1.0), (1.42, 0.5)]):
+                yield {"fam": "clip", "vb": list(vb), "items": [[s, *p1], [s, *p2]], "via": "inplace" if pos.index(p1) % 2 else "lib", "tier": tier, "seed": seed}
     if tier == "thorough":
         for vb in VIEWBOXES[1:]:
             for p1, p2, p3 in itertools.product(pos[::3], pos[1::4], pos[2::5]):
@@ -290,13 +369,19 @@ def corpus_for_c07(tier, seed):
 def cases(tier, seed):
     yield from all_clip_cases(tier, seed)
     pos = [(0.0, 0.5), (0.5, 0.5), (1.0, 1.0), (1.42, 0.5)]
-    for k, s in enumerate(list(UNIT)[:5]):
+    for k, s in enumerate(list(UNIT)[:5] + list(DIRECT)):
         for p in pos:
             yield {"fam": "cli", "vb": list(VIEWBOXES[k % 4]), "items": [[s, *p]]}
+    for k, s in enumerate(DIRECT):
+        yield {"fam": "cli", "vb": list(VIEWBOXES[k % 4]), "items": [[s, 1.42, 0.5], [s, 0.5, 0.5]]}
     shapes = bbox_shapes()
     docs = [source_doc(VIEWBOXES[0], [("rect", 0.2, 0.3), ("cubic", 0.8, 0.6)]), source_doc(VIEWBOXES[1], [("circle", 0.0, 0.0), ("tri", 1.0, 1.0), ("ring", 0.5, 1.42)])]
     for i in range(0, len(shapes), 60):
         yield {"fam": "bbox", "shapes": shapes[i : i + 60], "docs": docs if i == 0 else []}
+    more = list(bbox_docs(tier))
+    for i in range(0, len(more), 20):
+        yield {"fam": "bbox", "shapes": [], "docs": more[i : i + 20]}
+    yield {"fam": "rects"}
 
 
 def run(run):
@@ -321,4 +406,8 @@ def replay(case):
         return evaluate_bbox({"shapes": [(case["kind"], case["spec"])]})["viol"]
     if case.get("fam") == "cli":
         return evaluate_cli(case)["viol"]
+    if case.get("fam") == "bboxdoc":
+        return evaluate_bbox({"shapes": [], "docs": [case["doc"]]})["viol"]
+    if case.get("fam") == "rects":
+        return evaluate_rects(case)["viol"]
     return []
